@@ -8,6 +8,8 @@ from .. import paths
 from ..core import FUNC, call_attr, calls_in, dotted, norm, text, walk_local, is_const, kwarg
 
 EXPLANATION = [
+    'C04.queue-send-total: the method Host installs as `send` callback of its DataPacketQueues contains no raise statement.',
+    "C04.pipe-single-path: only the pump of FlowControlAsyncPipe calls write_to_sink; write() only appends to the queue (one delivery path, so order is the queue's).",
     'C04.pipe-pump-condition: FlowControlAsyncPipe.can_pump decides on the packet queue being non-empty, not on the count of queued bytes.',
     'C04.big-table: the BIG completion handlers of the host assign self.bigs[handle] (no setdefault / update that keeps the set of an earlier failed attempt).',
     'C04.pools: every IsoLink is created with self.iso_packet_queue, and get_data_packet_queue returns the queue stored on the link itself (connection.acl_packet_queue / iso_link.packet_queue): enqueue and completion use the same pool.',
@@ -682,7 +684,50 @@ def pipe_pump_condition(ctx):
     R.check(ok, rule, 'bumble.utils.FlowControlAsyncPipe.can_pump', 'tests the packet queue', f'can_pump() decides on {atoms}: with only zero-length packets queued the byte counter is 0, the pump goes to sleep and those packets are never delivered', p.loc(fn))
 
 
+def pipe_single_path(ctx):
+    """FlowControlAsyncPipe delivers through one path: write() only queues, the pump alone calls write_to_sink - a second
+    path that hands a packet to the sink directly can overtake what is still queued."""
+    R, p = ctx.r, ctx.p
+    rule = 'C04.pipe-single-path'
+    ci = p.cls('bumble.utils.FlowControlAsyncPipe')
+    if ci is None:
+        R.bad(rule, 'bumble.utils.FlowControlAsyncPipe', 'anchor missing')
+        return
+    callers = sorted({name for name, fn in ci.methods.items() for c in calls_in(fn) if dotted(c.func) == 'self.write_to_sink'})
+    w = ci.methods.get('write')
+    queues = w is not None and any(call_attr(c) == 'append' and dotted(c.func.value) == 'self.queue' for c in calls_in(w))
+    R.check(len(callers) == 1 and 'write' not in callers and queues, rule, 'bumble.utils.FlowControlAsyncPipe | delivery path', f'only {callers} hands packets to the sink; write() queues', f'write_to_sink is called from {callers}: a packet written while earlier ones are still queued (after a pause with a non-zero threshold) reaches the sink before them', p.loc(w) if w is not None else p.loc(ci.node))
+
+
+def queue_send_total(ctx):
+    """DataPacketQueue._check_queue pops a packet and then calls its `send` callback: the callback the host installs
+    (Host.send_hci_packet) never raises on its own account, or the popped packet is neither sent nor completed and the
+    exception leaves whatever teardown was flushing the queue half-way."""
+    R, p = ctx.r, ctx.p
+    rule = 'C04.queue-send-total'
+    host = p.cls('bumble.host.Host')
+    if host is None:
+        R.bad(rule, 'bumble.host.Host', 'anchor missing')
+        return
+    sends = set()
+    for fn in host.methods.values():
+        for c in [x for x in ast.walk(fn) if isinstance(x, ast.Call) and call_attr(x) == 'DataPacketQueue']:
+            s_ = kwarg(c, 'send', 2)
+            if s_ is not None and (dotted(s_) or '').startswith('self.'):
+                sends.add(dotted(s_)[5:])
+    R.check(len(sends) >= 1, rule, 'bumble.host.Host | queue send callbacks', f'{sorted(sends)}', 'no DataPacketQueue(send=self.<method>) found', p.loc(host.node))
+    for name in sorted(sends):
+        fn = host.methods.get(name)
+        if fn is None:
+            R.bad(rule, f'bumble.host.Host.{name}', 'anchor missing')
+            continue
+        rs = [x for x in walk_local(fn) if isinstance(x, ast.Raise)]
+        R.check(not rs, rule, f'bumble.host.Host.{name}', 'does not raise', f'{name} is the send callback of the data packet queues and raises (`{norm(rs[0])[:50] if rs else ""}`): a packet popped by _check_queue during the flush of another connection vanishes (queued, never sent, never completed) and the exception ends on_transport_lost() before the other links are torn down', p.loc(rs[0]) if rs else p.loc(fn))
+
+
 RULES = [
+    ('C04.queue-send-total', queue_send_total),
+    ('C04.pipe-single-path', pipe_single_path),
     ('C04.pipe-pump-condition', pipe_pump_condition),
     ('C04.big-table', big_table),
     ('C04.pools', pools_rule),
